@@ -394,9 +394,40 @@ func NewRoot() (*ggql.Root, *Root, error) {
 	return root, r, nil
 }
 
+// NewRootMutationAdded is NewRoot for an application that parses its schema WITHOUT the Mutation type and adds that type
+// through the Go API afterwards (AddTypes), before it registers anything.
+func NewRootMutationAdded() (*ggql.Root, *Root, error) {
+	root, r, late, err := newRootLate(SDL[:strings.Index(SDL, "type Mutation {")])
+	if err != nil {
+		return nil, nil, err
+	}
+	ref := func(n string) ggql.Type { return &ggql.Ref{Base: ggql.Base{N: n}} }
+	field := func(name, typ string, args ...string) *ggql.FieldDef {
+		fd := &ggql.FieldDef{Base: ggql.Base{N: name}, Type: ref(typ)}
+		for i := 0; i+1 < len(args); i += 2 {
+			_ = fd.AddArg(&ggql.Arg{Base: ggql.Base{N: args[i]}, Type: ref(args[i+1])})
+		}
+		return fd
+	}
+	m := &ggql.Object{Base: ggql.Base{N: "Mutation"}}
+	for _, fd := range []*ggql.FieldDef{field("bump", "Int", "by", "Int"), field("diff", "Int", "a", "Int", "b", "Int"), field("sub", "Int", "a", "Int", "b", "Int"),
+		field("renamed", "String"), field("find", "String", "artist", "String", "album", "String", "title", "String", "year", "Int")} {
+		_ = m.AddField(fd)
+	}
+	if err = root.AddTypes(m); err == nil {
+		err = late()
+	}
+	if err != nil {
+		return nil, nil, err
+	}
+	return root, r, nil
+}
+
 // NewRootLate is NewRoot with the explicit type and field registrations handed back as a function: an application may
 // register late, after its root has already answered requests (a health check, a warm-up).
-func NewRootLate() (*ggql.Root, *Root, func() error, error) {
+func NewRootLate() (*ggql.Root, *Root, func() error, error) { return newRootLate(SDL) }
+
+func newRootLate(sdl string) (*ggql.Root, *Root, func() error, error) {
 	i2 := &Item{ID: "i2", Size: 2, Tags: []string{"x", "y"}, Kind: "LARGE"}
 	i1 := &Item{ID: "i1", Size: 1, Tags: []string{"a"}, Next: i2, Kind: "SMALL"}
 	q := &Query{Items: []*Item{i1, i2}, Name: "zoo", Count: 2, When: time.Date(2020, 1, 2, 3, 4, 5, 0, time.UTC), Ratio: 0.5}
@@ -404,7 +435,7 @@ func NewRootLate() (*ggql.Root, *Root, func() error, error) {
 	r := &Root{Query: q, Mutation: &Mutation{N: 10}}
 	root := ggql.NewRoot(r)
 	q.root = root
-	if err := root.ParseString(SDL); err != nil {
+	if err := root.ParseString(sdl); err != nil {
 		return nil, nil, nil, err
 	}
 	if err := root.RegisterType(&BoxIn{}, "Box"); err != nil {
@@ -453,6 +484,7 @@ var Requests = []struct {
 	{`{ __schema { queryType { name } types { name kind } } }`, nil},
 	{`{ __type(name: "Item") { name kind fields { name type { name kind ofType { name } } } interfaces { name } } }`, nil},
 	{`query Q($s: Boolean = true) { name @skip(if: $s) count @include(if: $s) }`, nil},
+	{`{ __schema { mutationType { name fields { name } } subscriptionType { name } } }`, nil},
 	{`mutation { bump(by: 3) }`, nil},
 	{`mutation { diff(a: 10, b: 3) renamed }`, nil},
 	{`mutation { sub(a: 10, b: 3) s2: sub(b: 1) }`, nil},
